@@ -419,7 +419,9 @@ static err_t call_CSRUnwrap(fc_ctx* c) { return bpkiCSRUnwrap(c->a[0], (size_t*)
 static int bad_CSRUnwrap(fc_ctx* c, int j, err_t* exp)
 {
 	octet* csr = (octet*)c->a[2];
-	if (j == 0) { c->n[2] = CSR_LEN - 1 - fc_below(c, CSR_LEN - 1); exp[0] = ERR_BAD_FORMAT; return 1; }
+	if (c->n[2] != CSR_LEN)
+		return 0; /* already shortened by another variant */
+	if (j == 0) { c->n[2] = CSR_LEN - 1 - fc_below(c, CSR_LEN - 1); c->a[2] = fc_cut(c, csr, c->n[2]); exp[0] = ERR_BAD_FORMAT; return 1; }   /* any proper prefix, exact size */
 	if (j == 1) { c->n[2] = 0; exp[0] = ERR_BAD_FORMAT; return 1; }
 	if (j < 42)
 	{
